@@ -1,5 +1,6 @@
 """Real managers over the scripted stub: trace production and history generation (C01, C07)."""
 import itertools
+import copy
 import random
 import signal
 
@@ -140,9 +141,18 @@ class Session:
         self.trace.append(entry_of(sim, st, val, op[0] == "r", log_before, pend_before))
         if st == "ok":
             self.last = (op[0], val)
+            if self.script.get("scribble"):
+                # the caller owns what a manager returns and what it handed in: a rollout loop that pops the entries
+                # it has dealt with, or re-uses its action dictionary, must not reach into the manager's bookkeeping
+                self.last = (op[0], copy.deepcopy(val))
+                for d in ([val] if op[0] == "r" else list(val)):
+                    if isinstance(d, dict):
+                        d.clear()
+                if op[0] != "r":
+                    ad.clear()
         elif st != "rejected":
             self.dead = True
-        return st, val
+        return st, self.last[1] if st == "ok" else val
 
 
 def run_concrete(kind, shuffle, script, tape, ops):
@@ -254,6 +264,8 @@ def gen_script(rng, max_agents=5, max_t=8, allow_big=False):
         sc["plainIds"] = True                 # agent0 .. agent13: agent1 is a substring of agent10, agent10 < agent2
     if rng.random() < 0.3:
         sc["npFlags"] = True                  # done flags are numpy.bool_ objects
+    if rng.random() < 0.3:
+        sc["scribble"] = True                 # returned dictionaries are emptied by the caller (see Session.apply)
     if not all(learning) and rng.random() < 0.4:
         # non-learning entities that only observe (1) or only act (2): not agents in the managers' sense
         sc["halves"] = [0 if learning[a] else rng.choice([0, 1, 2]) for a in range(n)]
